@@ -35,9 +35,12 @@ def onReady (s : PState) : PState × String :=
       match findSimLoop A B (2 * A.stateCount * (A.symbolCount + 4) + 1000) [(1, 1)] [] with
       | some f => "FAIL " ++ simDiag A B f
       | none => "FAIL lock-step exploration found two different images for one state"
+  -- the converse direction, where a state-wise simulation merged → split exists (then `sim_preserves`
+  -- applied to (B, A) proves "optimised accepts with t ⇒ unoptimised accepts with t" for this pair too)
+  let rsim := (findSim B A).isSome
   let det := detJudge s.det
   ({ s with A := A, B := B, simOK := sim.isSome },
-   s!"P {s.gid} kind={s.kind} statesA={A.stateCount} statesB={B.stateCount} closedA={tableClosed A} closedB={tableClosed B} det={if det then "ok" else "FAIL"} mapped={(sim.map List.length).getD 0} sim={diag}")
+   s!"P {s.gid} kind={s.kind} statesA={A.stateCount} statesB={B.stateCount} closedA={tableClosed A} closedB={tableClosed B} det={if det then "ok" else "FAIL"} rsim={rsim} mapped={(sim.map List.length).getD 0} sim={diag}")
 
 def natList (s : String) : List Nat := if s == "-" || s == "" then [] else (s.splitOn ",").map natOf'
 
